@@ -100,7 +100,7 @@ func TestVerifWireRegproc(t *testing.T) {
 		}
 		deliver("", raw)
 		if r.wantMut(row) && f["wrapper"] != "nil" {
-			for _, m := range vwMutations(raw, r.rng, r.maxTrunc, r.nflip) {
+			for _, m := range r.muts(row, raw) {
 				deliver(fmt.Sprintf("%s@%d", m.Kind, m.Pos), m.Raw)
 			}
 		}
